@@ -673,7 +673,16 @@ impl State {
                     basis,
                     indices: actual_measured_qubits.to_vec(),
                     outcomes: outcome_binary_vec,
-                    new_state: State::new(collapsed_state_data)?,
+                    // A vector that has just been renormalised is not validated again: the rounding of the division alone can
+                    // exceed State::new's tolerance (EPSILON * len) on a one-qubit register
+                    new_state: if normalisation_sq.is_normal() {
+                        State {
+                            state_vector: collapsed_state_data,
+                            num_qubits: self.num_qubits,
+                        }
+                    } else {
+                        State::new(collapsed_state_data)?
+                    },
                 })
             }
             MeasurementBasis::X => {
